@@ -24,119 +24,20 @@ structure Flags where
   disableBitwise : Bool := false
   deriving DecidableEq, Repr, Inhabited
 
-def Flags.get (f : Flags) (name : String) : Option Bool :=
-  if name == "EnableDiceWoD" then some f.wod else if name == "EnableDiceCoC" then some f.coc
-  else if name == "EnableDiceFate" then some f.fate else if name == "EnableDiceDoubleCross" then some f.dc
-  else if name == "DisableStmts" then some f.disableStmts else if name == "DisableNDice" then some f.disableNDice
-  else if name == "DisableBitwiseOp" then some f.disableBitwise else none
+def FlagId.ofName (name : String) : Option FlagId :=
+  if name == "EnableDiceWoD" then some .wod else if name == "EnableDiceCoC" then some .coc
+  else if name == "EnableDiceFate" then some .fate else if name == "EnableDiceDoubleCross" then some .dc
+  else if name == "DisableStmts" then some .stmts else if name == "DisableNDice" then some .ndice
+  else if name == "DisableBitwiseOp" then some .bitwise else none
 
-def Flags.set (f : Flags) (name : String) (v : Bool) : Option Flags :=
-  if name == "EnableDiceWoD" then some { f with wod := v } else if name == "EnableDiceCoC" then some { f with coc := v }
-  else if name == "EnableDiceFate" then some { f with fate := v } else if name == "EnableDiceDoubleCross" then some { f with dc := v }
-  else if name == "DisableStmts" then some { f with disableStmts := v } else if name == "DisableNDice" then some { f with disableNDice := v }
-  else if name == "DisableBitwiseOp" then some { f with disableBitwise := v } else none
+def Flags.get (f : Flags) : FlagId → Bool
+  | .wod => f.wod | .coc => f.coc | .fate => f.fate | .dc => f.dc
+  | .stmts => f.disableStmts | .ndice => f.disableNDice | .bitwise => f.disableBitwise
 
-/-- effects of an action, in execution order -/
-inductive Eff where
-  | emit (op : Nat)
-  | loopBegin | loopEnd
-  | breakCont                       -- BreakPush / ContinuePush guarded by `loopLayer == 0 → addErr`
-  | flagsPush | flagsPop
-  | setFlag (name : String) (v : Bool)
-  | flagsSwitch
-  | addErr
-  | unknown (what : String)         -- something the translator / this table does not understand: the tie is broken
-  deriving Repr, Inhabited
-
-inductive Pred where
-  | none                            -- not a predicate
-  | flag (name : String) (negated : Bool)
-  | const (v : Bool)
-  | customDice
-  | unknown (what : String)
-  deriving Repr, Inhabited
-
-structure Act where
-  effs : List Eff
-  pred : Pred
-  deriving Repr, Inhabited
-
-/-! ### interpretation of the regenerated action summaries -/
-
-def splitCall (c : String) : String × List String :=
-  match c.splitOn "(" with
-  | m :: rest =>
-    let inner := ("(".intercalate rest)
-    let inner := (inner.dropEnd 1).toString
-    (m, if inner == "" then [] else inner.splitOn "\x1f")
-  | [] => (c, [])
-
-def opOf (ops : List (String × Nat)) (name : String) : Option Nat := (ops.find? (·.1 == name)).map (·.2)
-
-/-- opcodes a ParserData method writes (unconditional methods only; `none` = needs special handling) -/
-partial def methodOps (ms : List MethodInfo) (ops : List (String × Nat)) (name : String) : Option (List Nat) :=
-  match ms.find? (·.name == name) with
-  | none => none
-  | some m =>
-    if m.cond then none else
-    m.ops.foldl (fun acc o =>
-      match acc with
-      | none => none
-      | some l =>
-        if o.startsWith "@" then
-          (match methodOps ms ops (o.drop 1).toString with
-           | some l2 => some (l ++ l2)
-           | none => none)
-        else (match opOf ops o with | some n => some (l ++ [n]) | none => none)) (some [])
-
-def blockPushOp (ops : List (String × Nat)) : Nat := (opOf ops "typeBlockPush").getD 9999
-def blockPopOp (ops : List (String × Nat)) : Nat := (opOf ops "typeBlockPop").getD 9999
-def jmpOp (ops : List (String × Nat)) : Nat := (opOf ops "typeJmp").getD 9999
-
-def callEffs (ms : List MethodInfo) (ops : List (String × Nat)) (checksLoop : Bool) (c : String) : List Eff :=
-  let (m, args) := splitCall c
-  let arg (i : Nat) : String := args.getD i ""
-  let emitNamed (n : String) : List Eff := match opOf ops n with | some k => [.emit k] | none => [.unknown ("opcode " ++ n)]
-  if m == "AddOp" || m == "WriteCode" then
-    (if (arg 0).startsWith "i:" then emitNamed ((arg 0).drop 2).toString else [.unknown c])
-  else if m == "BreakPush" || m == "ContinuePush" then (if checksLoop then [.breakCont] else [.unknown c])
-  else if m == "LoopBegin" then [.loopBegin]
-  else if m == "LoopEnd" then [.loopEnd]
-  else if m == "FlagsPush" then [.flagsPush]
-  else if m == "FlagsPop" then [.flagsPop]
-  else if m == "AddAttrSet" then
-    (if arg 2 == "i:true" then emitNamed "typeLoadNameRaw" ++ emitNamed "typeAttrSet"
-     else if arg 2 == "i:false" then emitNamed "typeLoadName" ++ emitNamed "typeAttrSet" else [.unknown c])
-  else if m == "AddStoreFunction" then emitNamed "typePushFunction" ++ emitNamed "typeStoreName"
-  else if m == "PrepareCustomDice" || m == "ConsumeCustomDice" || m == "CommitCustomDice" then []   -- only reached when a custom parser matched
-  else
-    match methodOps ms ops m with
-    | some l => l.map .emit
-    | none => [.unknown c]
-
-def predOf (a : ActInfo) : Pred :=
-  let r := a.ret
-  if r == "nil" || r.startsWith "[]byte(" || r == "c.text" || r == "toStr(c.text)" then .none
-  else if r.startsWith "!c.data.Config." then .flag (r.drop 15).toString true
-  else if r.startsWith "c.data.Config." then .flag (r.drop 14).toString false
-  else if r == "false" && a.calls.isEmpty && a.assigns.isEmpty then .const false
-  else if r == "true" && a.calls.isEmpty && a.assigns.isEmpty then .const true
-  else if r == "c.data.PrepareCustomDice(p)" then .customDice
-  else if r == "false" then .none     -- `return false` inside an action body (break / continue outside a loop): the value is ignored
-  else .unknown r
-
-def actOf (ms : List MethodInfo) (ops : List (String × Nat)) (a : ActInfo) : Act :=
-  let pred := predOf a
-  let callE := a.calls.flatMap (callEffs ms ops a.checksLoop)
-  let assignE : List Eff :=
-    if a.name.startsWith "call_onflagsSwitch" then [.flagsSwitch]
-    else a.assigns.map (fun s =>
-      match s.splitOn "=" with
-      | [f, "true"] => .setFlag f true
-      | [f, "false"] => .setFlag f false
-      | _ => .unknown ("assign " ++ s))
-  let errE : List Eff := if a.addErr && !a.checksLoop then [.addErr] else []
-  { effs := callE ++ assignE ++ errE, pred := pred }
+def Flags.set (f : Flags) (id : FlagId) (v : Bool) : Flags :=
+  match id with
+  | .wod => { f with wod := v } | .coc => { f with coc := v } | .fate => { f with fate := v } | .dc => { f with dc := v }
+  | .stmts => { f with disableStmts := v } | .ndice => { f with disableNDice := v } | .bitwise => { f with disableBitwise := v }
 
 /-! ### the engine -/
 
@@ -162,9 +63,10 @@ structure PState where
   trace : List Nat := []          -- reversed
   labels : List (String × Nat × Nat) := []
   skip : Nat := 0                 -- number of enclosing look-ahead predicates
-  memo1 : Std.HashMap Nat (Bool × Nat) := {}
-  memo2 : Std.HashMap Nat (Bool × Nat) := {}
+  memo1 : Std.HashMap (Nat × Nat) (Bool × Nat) := {}
+  memo2 : Std.HashMap (Nat × Nat) (Bool × Nat) := {}
   cnt : Nat := 0
+  switched : Bool := false        -- ghost: a flagsSwitch macro action has run
   broken : Option String := none  -- the model met something it does not understand
   fuelOut : Bool := false
 
@@ -203,14 +105,16 @@ def runEff (env : Env) (s : PState) (e : Eff) : PState :=
       { s with trace := env.jmp :: ((List.replicate d env.bpop) ++ s.trace) }
   | .flagsPush => { s with flagsStack := s.cfg :: s.flagsStack }
   | .flagsPop => (match s.flagsStack with | f :: r => { s with cfg := f, flagsStack := r } | [] => { s with broken := some "FlagsPop on empty stack" })
-  | .setFlag n v => (match s.cfg.set n v with | some c => { s with cfg := c } | none => { s with broken := some ("unknown flag " ++ n) })
+  | .setFlag f v => { s with cfg := s.cfg.set f v }
   | .flagsSwitch =>
     let get (l : String) : String := match s.labels.find? (·.1 == l) with | some (_, a, b) => sliceText env a b | none => ""
     let onVal := get "on" == "true"
     let id := get "id"
-    if id == "wod" then { s with cfg := { s.cfg with wod := onVal } } else if id == "coc" then { s with cfg := { s.cfg with coc := onVal } }
-    else if id == "fate" then { s with cfg := { s.cfg with fate := onVal } } else if id == "doublecross" then { s with cfg := { s.cfg with dc := onVal } }
-    else s
+    let cfg' : Flags :=
+      if id == "wod" then { s.cfg with wod := onVal } else if id == "coc" then { s.cfg with coc := onVal }
+      else if id == "fate" then { s.cfg with fate := onVal } else if id == "doublecross" then { s.cfg with dc := onVal }
+      else s.cfg
+    { s with switched := true, cfg := cfg' }
   | .addErr => { s with errs := true }
   | .unknown w => { s with broken := some w }
 
@@ -221,20 +125,22 @@ def evalPred (env : Env) (s : PState) (a : Nat) : PState × Bool :=
   -- a predicate's side effects (addErr) happen in both modes
   let s := act.effs.foldl (runEff env) s
   match act.pred with
-  | .flag n neg => (match s.cfg.get n with | some v => (s, if neg then !v else v) | none => ({ s with broken := some ("unknown flag " ++ n) }, false))
+  | .flag f neg => (s, if neg then !(s.cfg.get f) else s.cfg.get f)
   | .const v => (s, v)
   | .customDice => (s, false)      -- no custom dice parser registered
   | .none => ({ s with broken := some "code predicate without a boolean result" }, false)
   | .unknown w => ({ s with broken := some ("predicate " ++ w) }, false)
 
-def memoKey (env : Env) (pos id : Nat) : Nat := pos * env.nodeCount + id
+
+/-- the current rune as the matchers see it -/
+def curRune (env : Env) (ic : Bool) (pos : Nat) : Nat :=
+  let rn := (decodeAt env pos).1
+  if ic then toLowerAscii rn else rn
 
 def matchLit (env : Env) (ic : Bool) (p0 : Nat) : List Nat → PState → PState × Bool
   | [], s => (s, true)
   | want :: r, s =>
-    let (rn, _) := decodeAt env s.pos
-    let cur := if ic then toLowerAscii rn else rn
-    if cur != want then ({ s with pos := p0 }, false) else matchLit env ic p0 r (advance env s)
+    if curRune env ic s.pos != want then ({ s with pos := p0 }, false) else matchLit env ic p0 r (advance env s)
 
 def nodeId : PExpr → Nat
   | .seq i _ | .choice i _ | .action i _ _ | .code i _ _ | .andCode i _ | .and_ i _ | .andLogical i _ | .not_ i _ | .any i
@@ -249,7 +155,7 @@ def parseExpr (env : Env) : Nat → PExpr → PState → PState × Bool
     let s := { s with cnt := s.cnt + 1 }
     -- ParseExprLimit: the generated engine panics (Parse turns it into an error); nothing further is parsed
     if env.maxCnt > 0 && s.cnt > env.maxCnt then ({ s with errs := true }, false) else
-    let key := memoKey env s.pos (nodeId e)
+    let key := (s.pos, nodeId e)
     let hit := if s.skip > 0 then s.memo2[key]? else s.memo1[key]?
     match hit with
     | some (b, endPos) => ({ s with pos := endPos }, b)
@@ -291,7 +197,7 @@ def parseNode (env : Env) : Nat → PExpr → PState → PState × Bool
     | .cls _ chars ranges classes inverted ic =>
       let (rn, w) := decodeAt env s.pos
       if rn == DS.ErrFmt.runeError && w == 0 then (s, false) else
-      let cur := if ic then toLowerAscii rn else rn
+      let cur := curRune env ic s.pos
       let hit := chars.contains cur || ranges.any (fun (lo, hi) => lo ≤ cur && cur ≤ hi) || classes.any (fun c => inTable (env.tables[c]!) cur)
       if hit != inverted then (advance env s, true) else (s, false)
     | .star _ e' => parseStar env fuel e' s
